@@ -4,6 +4,7 @@ import (
 	"bytes"
 	"fmt"
 	"github.com/multiformats/go-multiaddr"
+	"github.com/multiformats/go-multihash"
 	"strings"
 	"unicode/utf8"
 
@@ -281,6 +282,7 @@ func runC03(r *simkit.Run, c Cfg) {
 	var origSeen, sentSeen []byte
 	attack := false
 	bitFlip := -1
+	swapVersion := false
 	w.Net.Policy = func(q *simkit.ReqRecord) simkit.FaultSpec {
 		if !attack || !strings.HasSuffix(q.Path, "/head") {
 			return simkit.FaultSpec{}
@@ -290,6 +292,20 @@ func runC03(r *simkit.Run, c Cfg) {
 			of := parseHead(orig)
 			older := pub.Ads[0]
 			var out []byte
+			if swapVersion {
+				// the same multihash under the other CID version (a CIDv0
+				// and the CIDv1 with the dag-pb codec name the same block):
+				// another CID than the one that was signed
+				f := of
+				if of.cid.Version() == 0 {
+					f.cid = cid.NewCidV1(cid.DagProtobuf, of.cid.Hash())
+				} else {
+					f.cid = cid.NewCidV0(of.cid.Hash())
+				}
+				out = rebuildHead(f, of.topic != "", false, false)
+				sentSeen = out
+				return out
+			}
 			if k.alt < k.p {
 				out = append([]byte(nil), orig...)
 				pos := k.alt * len(orig) / k.p
@@ -432,6 +448,18 @@ func runC03(r *simkit.Run, c Cfg) {
 			return ai
 		}
 	}
+	if k.direct && c.Case < 0 && tp.Chance(1, 5, "swapVersion") {
+		// the publisher's root is a CIDv0, or the CIDv1 that names the same
+		// block, and the head comes back under the other of the two
+		swapVersion = true
+		mh := must(multihash.Sum([]byte("a dag-pb root"), multihash.SHA2_256, -1))
+		root := cid.NewCidV0(mh)
+		if tp.Chance(1, 2, "swapVersion.v1") {
+			root = cid.NewCidV1(cid.DagProtobuf, mh)
+		}
+		pub.Pub.SetRoot(root)
+		r.Probe("head-under-the-other-cid-version")
+	}
 	attack = true
 	req0 := len(w.Net.Requests())
 	var res *result
@@ -468,6 +496,9 @@ func runC03(r *simkit.Run, c Cfg) {
 		res = run("SyncAdChain", func() (cid.Cid, error) { return sub.Sub.SyncAdChain(bg, target) })
 	}
 	attack = false
+	if swapVersion {
+		pub.Pub.SetRoot(headCid)
+	}
 	if origSeen == nil {
 		r.Violate("c03.setup", "no head request was seen")
 		w.Shutdown(sub, lst)
@@ -482,6 +513,9 @@ func runC03(r *simkit.Run, c Cfg) {
 	desc := fmt.Sprintf("bit flip at byte %d of %d", bitFlip, len(origSeen))
 	if k.alt >= k.p {
 		desc = c03FieldName(k.alt - k.p)
+	}
+	if swapVersion {
+		desc = "CID replaced by the other CID version of the same multihash"
 	}
 	switch {
 	case accepted && !legit:
